@@ -1,4 +1,4 @@
-import StraxModel.Lemmas.MailboxOoo
+import StraxModel.Lemmas.MailboxTerm
 /-
   C05 — a mailbox delivers every message exactly once, in order, to every subscriber.
 
@@ -66,8 +66,7 @@ ended has an enabled thread, under either of the decidable liveness side conditi
 Together with `no_lost_wakeup` this is "no lost wake-up, no capacity deadlock" for every schedule.
 The one combination left out deadlocks for real: a lazy mailbox with the gate rule as found, fed out of order
 (`lazy_out_of_order_old_rule_deadlock` below); it cannot arise through `_send_from` / `divide_outputs`, which number
-in order.  Not proved: a termination measure (that every schedule is finite); with it `stuck_is_success` would
-read "every run ends, and ends with exact delivery". -/
+in order.  Termination is `bounded_runs` / `no_infinite_execution` / `terminates` below. -/
 theorem deadlock_free (c : Config) (hv : c.valid = true) (hl : c.live = true ∨ c.liveOoo = true) (s : Sys)
     (h : Reachable c s) (hnf : s.final = false) : ∃ t, (step s t).isSome = true := by
   apply Classical.byContradiction
@@ -95,6 +94,46 @@ theorem stuck_is_success (c : Config) (hv : c.valid = true) (hl : c.live = true 
     · exact deadlock_free_core hv hl h hstuck
     · exact deadlock_free_ooo_core hv hl h hstuck
   exact ⟨hf, fun i r hr => delivery_exact_core hv h hf i r hr⟩
+
+/-- **every schedule is finite**, fairness-free: inside the domain, a schedule that can be executed from the
+initial state has at most `stepBound c = (n+6)·(3·|prog| + 3 + 2·n·(|prog|+1) + Σ|worker lists|) + 2·n + 4` steps
+(`n` subscribers).  Behind it: `Strax.Mailbox.measure` strictly decreases on every step (`measure_decreases`). -/
+theorem bounded_runs (c : Config) (hv : c.valid = true) (sched : List ThreadId) (s : Sys)
+    (h : run? (init c) sched = some s) : sched.length ≤ stepBound c := by
+  have h1 := run_length_le hv sched s h
+  have h2 := measure_init_le c
+  omega
+
+/-- … hence there is no infinite execution -/
+theorem no_infinite_execution (c : Config) (hv : c.valid = true) (f : Nat → Sys) (t : Nat → ThreadId)
+    (h0 : f 0 = init c) (hstep : ∀ n, step (f n) (t n) = some (f (n + 1))) : False := by
+  have key : ∀ n, Reachable c (f n) ∧ n + measure c (f n) ≤ measure c (f 0) := by
+    intro n
+    induction n with
+    | zero => exact ⟨by rw [h0]; exact Reachable.init, by simp⟩
+    | succ k ih =>
+      have hd := measure_decreases hv ih.1 (hstep k)
+      exact ⟨Reachable.step ih.1 (hstep k), by omega⟩
+  have := (key (measure c (f 0) + 1)).2
+  omega
+
+/-- **termination with exact delivery**: inside the domain and under either liveness side condition, every
+executable schedule is bounded by `stepBound c`, and from wherever it has led, the run can only go on to — and
+some continuation does reach — a state in which all threads have ended and every subscriber has been handed
+exactly the program's messages in number order.  With `stuck_is_success` (every maximal execution ends in that
+state) and `no_infinite_execution` (every execution is finite): every maximal execution is finite and successful. -/
+theorem terminates (c : Config) (hv : c.valid = true) (hl : c.live = true ∨ c.liveOoo = true)
+    (sched : List ThreadId) (s : Sys) (h : run? (init c) sched = some s) :
+    sched.length ≤ stepBound c ∧
+    ∃ ext s', run? s ext = some s' ∧ s'.final = true ∧
+      ∀ (i : Nat) (r : Reader), s'.readers[i]? = some r →
+        r.got = inOrder (numbered c.prog 0) c.prog.length ∧ ∃ rest, r.pc = .done rest := by
+  refine ⟨bounded_runs c hv sched s h, ?_⟩
+  have hr : Reachable c s := Reachable.of_run h
+  obtain ⟨ext, s', hrun, hstuck⟩ := exists_completion hv (measure c s) s hr (Nat.le_refl _)
+  have hr' : Reachable c s' := reachable_run_from hr ext hrun
+  obtain ⟨hf, hd⟩ := stuck_is_success c hv hl s' hr' hstuck
+  exact ⟨ext, s', hrun, hf, hd⟩
 
 /-- lazy mailbox with the gate rule as found, one driving subscriber, message 1 sent before message 0 -/
 def oooLazyOldCfg : Config :=
